@@ -284,5 +284,12 @@ Definition params_ok (q : query) (ps : params) : bool :=
      end
   && forallb (fun o => match operand_value ps o with Some VNull => false | _ => true end) (paging_values (q_paging q)).
 
+(* diagnostic: are the hypotheses of the theorems met by a case? (evaluated by the harness statistics) *)
+Definition wf_C05 (c : c05case) : list Z :=
+  match c with
+  | CQuery m rows q ps => [zb (wf_query m q); zb (params_ok q ps)]
+  | CPages m rows q ps n fuel => [zb (wf_query m q); zb (params_ok q ps)]
+  end.
+
 Definition eval_C05 (c : c05case) (obs : list Z) : list Z :=
   [zb (zlist_eqb (run_C05 c) obs); zb (spec_C05 c obs)] ++ known_C05 c.
